@@ -2,7 +2,7 @@
 META = {
     "level": "exploration",
     "technique": "history + ledger model on the real StorageServer.allocate_buckets / BucketWriter against a simulated disk placed behind os.statvfs as seen by allmydata.util.fileutil",
-    "text": "Drives the real StorageServer (allocate_buckets, BucketWriter.write/close/abort, 30-minute timeout under the virtual clock) against a simulated disk of random capacity with random reserved_space, root-only reserve and read-only flag; fileutil.get_disk_stats/get_available_space stay the real code (only os.statvfs is substituted; used bytes = bytes really materialised below the storage dir, sparse incoming files counted by what was written). At every allocate_buckets the oracle computes, independently, free space before the call, and demands: sum of sizes of newly granted writers + sizes of uploads still open + reserved_space <= free space (none granted when that budget is <= 0 or the server is read-only); after every operation allocated_size() must equal the sum of sizes of the open uploads of the ledger model.",
+    "text": "Drives the real StorageServer (allocate_buckets, BucketWriter.write/close/abort, 30-minute timeout under the virtual clock) against a simulated disk of random capacity with random reserved_space, root-only reserve and read-only flag, in three disk-statistics models crossed with read-only yes/no and reserved_space 0/non-zero (statistics available; no disk-statistics API = os.statvfs raises AttributeError so get_available_space is None; the OS call fails with OSError), servers optionally started on a directory that already holds shares; fileutil.get_disk_stats/get_available_space stay the real code (only os.statvfs is substituted; used bytes = bytes really materialised below the storage dir, sparse incoming files counted by what was written). At every allocate_buckets the oracle computes, independently, free space before the call, and demands: sum of sizes of newly granted writers + sizes of uploads still open + reserved_space <= free space (none granted when that budget is <= 0); a read-only server must grant nothing in every disk model; writable servers that cannot learn their free space are generated but not judged (the statement gives no bound); after every operation allocated_size() must equal the sum of sizes of the open uploads of the ledger model.",
     "note": "Trusts the SimDisk accounting (st_size of files, written bytes for sparse incoming files) and the ledger model; per-share container overhead (12-byte header, 72-byte leases) is not part of a share's 'reserved size' in the statement and is not charged by the oracle. Upload timeout assumed to be 30 min of inactivity, judged only >1 s away from it.",
 }
 LEVEL = "exploration"
@@ -14,6 +14,27 @@ from vf import env  # noqa
 from vf.checks import _storage as S
 
 TIMEOUT = 30 * 60
+
+
+class ModalDisk(S.SimDisk):
+    """SimDisk with a disk-statistics *model*:
+       "stats"   : os.statvfs answers (the simulated numbers)
+       "noapi"   : the platform has no disk-statistics API -- os.statvfs raises AttributeError, which
+                   fileutil.get_available_space documents/turns into None ("no API to get this information")
+       "oserror" : the OS call fails -- os.statvfs raises OSError (fileutil logs it and reports 0)."""
+
+    def __init__(self, root, total, root_reserve, mode):
+        S.SimDisk.__init__(self, root, total, root_reserve)
+        self.mode = mode
+
+    def statvfs(self, path):
+        if self.mode == "noapi":
+            self.calls += 1
+            raise AttributeError("module 'os' has no attribute 'statvfs'")
+        if self.mode == "oserror":
+            self.calls += 1
+            raise OSError(5, "Input/output error (simulated)")
+        return S.SimDisk.statvfs(self, path)
 
 
 class W(object):
@@ -38,11 +59,16 @@ def run(ck):
         total = rng.choice([5000, 20000, 80000, rng.randint(3000, 100000)])
         root_reserve = rng.choice([0, 0, 500, total // 10])
         reserved = rng.choice([0, 0, 0, 1, 500, 1000, total // 10, total // 4, total // 2, total * 2])
-        readonly = rng.random() < .12
-        case = S.Case(rng, disk_total=total, root_reserve=root_reserve,
-                      reserved_space=reserved, readonly_storage=readonly)
+        # disk model x read-only x reserved_space (0 / non-zero) are crossed; "stats" keeps the budget histories
+        mode = rng.choice(["stats"] * 6 + ["noapi"] * 2 + ["oserror"] * 2)
+        readonly = rng.random() < (.12 if mode == "stats" else .5)
+        if mode != "stats":
+            reserved = rng.choice([0, reserved or 1000])
+        # Case() builds a writable server on a normal simulated disk: it only serves to put shares on disk
+        # before the server under test (possibly read-only, possibly without disk statistics) is started
+        case = S.Case(rng, disk_total=total, root_reserve=root_reserve)
         try:
-            _one_case(ck, rng, case, total, root_reserve, reserved, readonly)
+            _one_case(ck, rng, case, total, root_reserve, reserved, readonly, mode)
         except Exception as e:
             import traceback
             tb = traceback.extract_tb(e.__traceback__)[-1]
@@ -50,24 +76,43 @@ def run(ck):
                 type(e).__name__, e, os.path.basename(tb.filename), tb.lineno), {"case": ci})
         finally:
             case.close()
-    for m in ("allocation-within-budget", "ledger", "readonly-grants-none"):
+    for m in ("allocation-within-budget", "ledger", "readonly-grants-none", "readonly-grants-none:stats",
+              "readonly-grants-none:noapi", "readonly-grants-none:oserror"):
         ck.require_monitor(m)
     for r in ("granted", "refused-no-space", "partially-granted", "budget-exactly-met", "budget-exceeded-by-1-refused",
               "open-uploads-counted", "reserved-space-binding", "released-by-close", "released-by-abort",
-              "released-by-timeout", "readonly-server", "multi-share-request", "regrant-after-release"):
+              "released-by-timeout", "readonly-server", "multi-share-request", "regrant-after-release",
+              "readonly-holding-shares", "readonly-reserved-0", "readonly-reserved-nonzero", "writable-noapi-grants",
+              "writable-oserror"):
         ck.require_reach(r)
     ck.exhaustive = False
 
 
-def _one_case(ck, rng, case, total, root_reserve, reserved, readonly):
+def _one_case(ck, rng, case, total, root_reserve, reserved, readonly, mode):
     from allmydata.interfaces import NoSpace
-    ss, disk = case.ss, case.disk
     sis = [S.rand_si(rng) for _ in range(rng.choice([1, 2, 3]))]
     client_secrets = {si: (S.rand_bytes(rng, 32), S.rand_bytes(rng, 32)) for si in sis}
     opened = {}      # (si, sh) -> W
     final = set()    # (si, sh)
     history = []
-    config = {"disk_total": total, "root_reserve": root_reserve, "reserved_space": reserved, "readonly": readonly}
+    config = {"disk_total": total, "root_reserve": root_reserve, "reserved_space": reserved, "readonly": readonly,
+              "disk_model": mode}
+    # shares the server already holds when it is (re)started -- a read-only server is typically an old full one
+    if rng.random() < (.6 if readonly else .25):
+        for si in rng.sample(sis, rng.randint(1, len(sis))):
+            shs = set(rng.sample(range(8), rng.randint(1, 2)))
+            sz = rng.choice([10, 200, max(1, total // 50)])
+            _a, ws = case.ss.allocate_buckets(si, client_secrets[si][0], client_secrets[si][1], shs, sz)
+            for sh, w in ws.items():
+                w.write(0, S.rand_bytes(rng, sz))
+                w.close()
+                final.add((si, sh))
+        config["preloaded_shares"] = len(final)
+    # the server under test: same storage dir, its own disk model
+    disk = ModalDisk(case.storedir, total, root_reserve, mode)
+    S.install_disk(disk)
+    case.disk = disk
+    ss = case.ss = S.make_server(case.tmp, nodeid=case.nodeid, reserved_space=reserved, readonly_storage=readonly)
     refused_once = [False]
 
     def now():
@@ -122,6 +167,15 @@ def _one_case(ck, rng, case, total, root_reserve, reserved, readonly):
                 viol("nospace-without-held-share", "allocate_buckets raised NoSpace although the server holds no share of it")
             ck.case("allocate-nospace", key=(repr(config), len(history)), nontrivial=False)
             return
+        except TypeError as e:
+            # without a disk-statistics API available space is None and the lease-renewal space test
+            # (`lease_info.immutable_size() > available_space`) cannot compare: the call fails as a whole
+            # before any writer exists.  A defect, but not one this statement speaks about.
+            if mode != "noapi" or "NoneType" not in str(e) or not any(s == si for (s, _sh) in final):
+                raise
+            ck.observe("allocate-raises-TypeError-comparing-with-None-available-space")
+            ck.case("allocate-typeerror", key=(repr(config), len(history)), nontrivial=False)
+            return
         granted = sorted(writers)
         for sh in granted:
             disk.sparse[case.incoming_path(si, sh)] = 12 + 72     # header + first lease materialised, data still a hole
@@ -131,18 +185,33 @@ def _one_case(ck, rng, case, total, root_reserve, reserved, readonly):
         if set(granted) - set(new):
             viol("granted-existing-share", "writer granted for share(s) %r that are already uploaded/uploading"
                  % (sorted(set(granted) - set(new)),), **req)
+        req["disk_model"] = mode
         if readonly:
+            # "a read-only server accepts none" -- whatever the disk (statistics) looks like
             ck.hit("readonly-server")
+            ck.hit("readonly-reserved-nonzero" if reserved else "readonly-reserved-0")
+            if any(s == si for (s, _sh) in final):
+                ck.hit("readonly-holding-shares")
             ck.mon("readonly-grants-none")
+            ck.mon("readonly-grants-none:" + mode)
             if granted:
-                viol("readonly-accepts", "read-only server granted %d writers" % len(granted), **req)
-        if len(granted) * size > max(0, b):
+                viol("readonly-accepts" if mode == "stats" else "readonly-accepts-without-disk-stats",
+                     "read-only server (disk model %r, reserved_space %d) granted %d writers of %d bytes"
+                     % (mode, reserved, len(granted), size), **req)
+        if mode != "stats" and not readonly:
+            # writable server that cannot learn its free space: the statement gives no bound -- not judged
+            ck.skip("writable-server-without-disk-stats:" + mode)
+            if mode == "noapi" and granted:
+                ck.hit("writable-noapi-grants")
+            if mode == "oserror":
+                ck.hit("writable-oserror")
+        elif len(granted) * size > max(0, b):
             viol("overcommit", "granted %d x %d = %d bytes; free %d - reserved %d - uploads in progress %d leaves %d"
                  % (len(granted), size, len(granted) * size, free, reserved, open_sum, b), **req)
         # reach / non-vacuity
         if len(new) >= 2:
             ck.hit("multi-share-request")
-        if granted:
+        if granted and mode == "stats":
             ck.hit("granted", len(granted))
             if open_sum and b < free - reserved:
                 ck.hit("open-uploads-counted")
@@ -150,7 +219,7 @@ def _one_case(ck, rng, case, total, root_reserve, reserved, readonly):
                 ck.hit("budget-exactly-met")
             if refused_once[0]:
                 ck.hit("regrant-after-release")
-        if new and len(granted) < len(new):
+        if mode == "stats" and new and len(granted) < len(new):
             ck.hit("refused-no-space")
             refused_once[0] = True
             if granted:
